@@ -105,6 +105,14 @@ func (fr *frame) get(v ssa.Value) Value {
 	panic(fmt.Sprintf("get: no binding for %T %v in %s", v, v.Name(), fr.fn))
 }
 
+// getOpt is get for an optional operand (nil means the constant 0).
+func (fr *frame) getOpt(v ssa.Value) Value {
+	if v == nil {
+		return int64(0)
+	}
+	return fr.get(v)
+}
+
 func (fr *frame) set(v ssa.Value, x Value) {
 	fr.env[fr.meta.index[v]] = x
 }
@@ -694,6 +702,15 @@ func (ex *Exec) sliceOp(fr *frame, ins *ssa.Slice) Value {
 		return a[lo:hi:mx]
 	default: // strings
 		s := ex.forceStr(x)
+		if ss, ok := s.(*SymStr); ok && ins.High != nil && ex.tokSrc != nil {
+			if ht, ok := fr.get(ins.High).(*Term); ok {
+				if lo, isConc := fr.getOpt(ins.Low).(int64); isConc {
+					if r, ok := ex.sliceTokSrc(ss, int(lo), ht); ok {
+						return r
+					}
+				}
+			}
+		}
 		n := ex.strLen(s)
 		lo := bound(ins.Low, 0)
 		hi := bound(ins.High, n)
